@@ -71,6 +71,8 @@ var (
 	names      = []string{"r1", "r2", "r3", "r4"}
 )
 
+var bigNames = []string{"r1", "r2", "r3", "r4", "r5", "r6", "r7", "r8", "r9", "r10", "r11", "r12", "r13", "r14"}
+
 func genLeaf(t *rapid.T, k int) MSpec {
 	switch rapid.IntRange(0, 3).Draw(t, "leaf") {
 	case 0:
@@ -133,10 +135,17 @@ func genMatcher(t *rapid.T, depth int) MSpec {
 func gen(t *rapid.T) Case {
 	var c Case
 	c.GroupRecov = rapid.Bool().Draw(t, "groupRecov")
-	for i, n := 0, rapid.IntRange(1, rig.Up(8)).Draw(t, "nsteps"); i < n; i++ {
+	names := names
+	nsteps := rapid.IntRange(1, rig.Up(8)).Draw(t, "nsteps")
+	if rapid.IntRange(0, 9).Draw(t, "bigGroup") == 0 {
+		// a group of a size beyond the usual: up to fourteen routers, mostly additions first
+		names = bigNames
+		nsteps = rapid.IntRange(10, 30).Draw(t, "bigSteps")
+	}
+	for i, n := 0, nsteps; i < n; i++ {
 		var s Step
 		switch k := rapid.IntRange(0, 9).Draw(t, "skind"); {
-		case k < 6 || i == 0:
+		case k < 6 || i == 0 || (len(names) > 4 && i < 9):
 			s = Step{Kind: rapid.SampledFrom([]string{"new", "add"}).Draw(t, "how"), Name: rapid.SampledFrom(names).Draw(t, "name"), M: genMatcher(t, 0)}
 			s.Routes = rapid.SliceOfNDistinct(rapid.SampledFrom(routePool), 1, 4, rapid.ID[string]).Draw(t, "routes")
 			if rapid.IntRange(0, 2).Draw(t, "ownRecov") == 0 {
@@ -398,7 +407,7 @@ func check(c Case, st *rig.Stats) error {
 				return rig.Violf("routers-list", "%s: Group.Routes()[%q]=%v, the router's own Routes()=%v", when, m.name, groutes[m.name], m.r.Routes())
 			}
 		}
-		for _, n := range []string{"r0", "r1", "r2", "r3", "r4", "nope"} {
+		for _, n := range append([]string{"r0", "nope"}, bigNames...) {
 			known := false
 			for _, m := range members {
 				known = known || m.name == n
